@@ -262,6 +262,10 @@ func (r *Run) Finish(level string, rule string) {
 	r.mu.Unlock()
 	b, _ := json.MarshalIndent(ev, "", " ")
 	p := filepath.Join(r.Verif, "evidence", r.ID+".json")
+	if d := os.Getenv("VERIF_EVIDENCE_DIR"); d != "" { // runs against a deliberately modified tree (--mutant) keep their evidence apart
+		os.MkdirAll(d, 0o755)
+		p = filepath.Join(d, r.ID+".json")
+	}
 	os.MkdirAll(filepath.Dir(p), 0o755)
 	if err := os.WriteFile(p, b, 0o644); err != nil {
 		fmt.Println("HARNESS-ERROR cannot write evidence:", err)
